@@ -7,6 +7,8 @@ C17.b type partition: entries are inserted into and looked up from the bucket of
   pack from the same bucket.
 C17.c only unmarked packs feed an index (shared with C10.a).
 C17.d totals: total_size grows by the pack size once per extended pack.
+C17.f an unreadable index file fails the construction of the index (no partial index): items of stream_all are
+  propagated (R-ERRITER item rule, shared with C05.f).
 C17.e reduced modes: Ids answers has() but never get_id(); None answers neither.
 Witness (thorough tier): Repository<IndexedIdsStatus>::get_index_entry does not type-check.
 """
@@ -87,7 +89,8 @@ def check_extend_sites(ctx, rep, rule):
 def run(ctx, rep):
     prog = ctx.prog
     for r, tx in (("C17.a", "binary search only on vectors sorted by the searched key"), ("C17.b", "BlobType bucket agreement"),
-                  ("C17.c", "only unmarked packs feed an index"), ("C17.d", "total_size accounting"), ("C17.e", "reduced index modes")):
+                  ("C17.c", "only unmarked packs feed an index"), ("C17.d", "total_size accounting"), ("C17.e", "reduced index modes"),
+                  ("C17.f", "an unreadable index file fails index construction")):
         rep.rule(r, tx)
     BS = "rustic_core::index::binarysorted::"
     GET = prog.fn(f"<{BS}Index as rustic_core::index::ReadIndex>::get_id")
@@ -216,6 +219,20 @@ def run(ctx, rep):
     loops = [(h, C.loop_blocks(EXT, h, l)) for (l, h) in C.back_edges(EXT)]
     depth = [sum(1 for h, bl in loops if bi in bl) for bi, _ in adds]
     rep.check("C17.d", "total-size", len(adds) == 1 and adds[0][1] and depth == [1], where=EXT.loc(), what="total_size += pack_size() exactly once per extended pack (outer loop)")
+    # ... and on EVERY iteration: no path round the outer loop avoids the addition (a `continue` before it would
+    # leave some listed packs out of the total)
+    if len(adds) == 1:
+        ab = adds[0][0]
+        outer = [(h, l, bl) for (l, h) in C.back_edges(EXT) for bl in [C.loop_blocks(EXT, h, l)] if ab in bl]
+        heads = {h for (h, l, bl) in outer}
+        skip = [where(EXT, l) for (l, h) in C.back_edges(EXT) if h in heads and ab != h and l != ab and C.reachable_between(EXT, [h], l, cut_blocks=[ab])]
+        rep.check("C17.d", "total-size-every-pack", bool(outer) and not skip, where=EXT.loc(),
+                  what="no iteration of the extend loop skips the total_size addition: every listed pack is counted" if not skip else
+                       "some path round the extend loop skips `total_size += pack_size()`: packs taking that path are missing from the size totals")
+        # the pack is also registered in its type's bucket on every iteration where that is possible (pack counts)
+    # ---- C17.f ------------------------------------------------------------------------------------
+    from rules import errprop
+    errprop.run_items(ctx, rep, "C17.f")
     # ---- C17.e ------------------------------------------------------------------------------------
     # get_id: only the FullEntries arm (discriminant 2) leads to a search; everything else returns None
     okg = False
